@@ -114,7 +114,7 @@ func describeHandle(h ssa.Value) string {
 // consuming methods are decided by dedicated rules instead.
 var tier2ExemptTypes = map[string]string{
 	"multiplexedChunkReader": "the underlying reader is closed by the last of several consumers (dynamic count, decided by R15.4)",
-	"validatedReaderBuffer":  "clones share the ReaderAt through an atomic clone count (decided by R15.4)",
+	"validatedReaderBuffer":  "clones share the ReaderAt through an atomic clone count (the count closes it: R15.4; every consuming method gives up exactly one share: R04.8)",
 }
 
 // Functions that read from a handle they are given without taking ownership.
